@@ -259,7 +259,7 @@ m("C16", "invalid-length-maps-to-io-error", "src/client.rs",
                     ReadError::WrongHeader(version)
                 }""", """                request::RequestCreationError::InvalidContentLength => {
                     ReadError::ReadIoError(IoError::new(ErrorKind::InvalidInput, "bad length"))
-                }""", "C16.3|")
+                }""", ["C16.4|", "C10.1|"])
 # ---- C17
 m("C17", "try-pop-skips-token", "src/util/messages_queue.rs",
   """        match queue.pop_front() {
